@@ -94,16 +94,20 @@ def _axioms():
     g.append(("L-rot.apply_undoes_inverse", fa([r, x, y, z], eq3(A(r, A(INV(r), v)), v))))
     g.append(("L-rot.identity_action", fa([x, y, z], eq3(A(IDENT, v), v), [AP[0](IDENT, x, y, z)])))
     g.append(("L-rot.product_action", fa([r, s, x, y, z], eq3(A(MUL(r, s), v), A(r, A(s, v))), [AP[0](MUL(r, s), x, y, z), AP[1](MUL(r, s), x, y, z), AP[2](MUL(r, s), x, y, z)])))
+    g = ax.setdefault("rot.group", [])
     g.append(("L-rot.group_identity", fa([r], z3.And(MUL(IDENT, r) == r, MUL(r, IDENT) == r), [MUL(IDENT, r), MUL(r, IDENT)])))
     g.append(("L-rot.group_inverse", fa([r], z3.And(MUL(r, INV(r)) == IDENT, MUL(INV(r), r) == IDENT), [MUL(r, INV(r)), MUL(INV(r), r)])))
     g.append(("L-rot.inverse_is_an_involution", fa([r], INV(INV(r)) == r, [INV(INV(r))])))
     g.append(("L-rot.only_the_identity_inverts_to_the_identity", fa([r], (INV(r) == IDENT) == (r == IDENT), [INV(r)])))
     g.append(("L-rot.group_cancel", fa([r, s], z3.And(MUL(r, MUL(INV(r), s)) == s, MUL(INV(r), MUL(r, s)) == s), [MUL(r, MUL(INV(r), s)), MUL(INV(r), MUL(r, s)), z3.MultiPattern(INV(r), MUL(r, s))])))
     g.append(("L-rot.inverse_of_identity", INV(IDENT) == IDENT))
+    g = ax["rot"]
     g.append(("L-rot.zero_vector_fixed", fa([r], eq3(A(r, (0, 0, 0)), (0, 0, 0)), [AP[0](r, 0, 0, 0), AP[1](r, 0, 0, 0), AP[2](r, 0, 0, 0)])))
     # Euler angles (intrinsic Z-X-Y = yaw, pitch, roll)
+    g = ax.setdefault("rot.euler", [])
     g.append(("L-rot.euler_roundtrip", fa([r], EULER(EUL[0](r), EUL[1](r), EUL[2](r)) == r, [EUL[0](r), EUL[1](r), EUL[2](r)])))
     g.append(("L-rot.euler_zero_is_identity", EULER(0, 0, 0) == IDENT))
+    g = ax.setdefault("rot.planar", [])
     g.append(
         (
             "L-rot.yaw_is_planar_ccw_rotation_about_z",
@@ -245,6 +249,7 @@ def instance(eng, name, *terms):
                 assert z3.is_quantifier(f) and f.num_vars() == len(terms), (name, f.num_vars(), len(terms))
                 body = f.body()
                 inst = z3.substitute_vars(body, *[t if isinstance(t, z3.ExprRef) and t.sort() == ROT else (rz(t) if not isinstance(t, z3.ExprRef) else t) for t in reversed(terms)])
+                inst = z3.simplify(inst)  # canonical argument terms: syntactically equal to the ones the interpreter builds
                 eng.assume(inst)
                 return inst
     raise PyvcError(f"unknown axiom {name}")
@@ -354,8 +359,7 @@ class RotationClass:
 def make_rotation(I, term):
     from .interp import BuiltinFn
 
-    use(I.eng, "rot")
-    o = PObj("scipy.Rotation", tag=str(term)[:40])
+    o = PObj("scipy.Rotation", tag=str(term)[:40])  # NB: the axiom groups ("rot", "rot.group", ...) are added by the contracts that need them
     o.term = term
 
     def apply(vectors, inverse=False):
